@@ -10,6 +10,8 @@
 //	         containers, extreme integers, NaN, invalid UTF-8, closed channel, ...), plus operators
 //	         and interpolation on all pairs of hostile values
 //	nesting  each bracketing / prefix construct nested 10 .. 10^6 deep
+//	shared   (thorough) container kind x operation pair x spawn form x ordering: scripts whose
+//	         goroutines share one container, free-running under Go's race detector
 //	slots    every statement/expression form as a template of slots x a few fillers per slot
 //	         (absent, doubled, wrong kind), alone and after a prelude defining the names used
 //
@@ -576,12 +578,15 @@ func Check(r *ev.Run, replay string) {
 		}()
 	}
 	wg.Wait()
+	if only := os.Getenv("VERIF_C03_SPACE"); r.Thorough() && (only == "" || only == "shared") {
+		sharedSupplement(r)
+	}
 	r.Set("worker_deaths", deaths)
 	if len(skipped) > 0 {
 		sort.Strings(skipped)
 		r.Set("skipped_inputs", skipped)
 	}
-	r.Set("rule", "soup: every sequence of <= 3 (thorough 4) tokens over a 68-token alphabet; edits: every single-token deletion and duplication of every program of the function/container/error/closure families (every 6th program in quick); hostile: every default-global callable (exec, network modules and exit excluded) x hostile argument tuples (arity 0-2; thorough all pairs), every method name x hostile receiver x hostile argument, operators/interpolation/indexing on all pairs of 22 hostile values; nesting: 17 constructs nested 10..10^3 (thorough 10^6) deep; slots: 23 templates (for, if, switch, func, call, index/slice, assignment, import/from, go/defer, map, list, operators, jumps in and out of context, string escapes/interpolations, channel operations, attributes, pipes, range and for-in headers, try, comments, number literals, ++/--) x every combination of 2-15 fillers per slot, each alone and after a prelude that defines the names. Every input runs parse, String, compile, Eval (15 ms deadline, virtual OS) and the error formatters in a worker child; distinct = worker batches completed")
+	r.Set("rule", "soup: every sequence of <= 3 (thorough 4) tokens over a 68-token alphabet; edits: every single-token deletion and duplication of every program of the function/container/error/closure families (every 6th program in quick); hostile: every default-global callable (exec, network modules and exit excluded) x hostile argument tuples (arity 0-2; thorough all pairs), every method name x hostile receiver x hostile argument, operators/interpolation/indexing on all pairs of 22 hostile values; nesting: 17 constructs nested 10..10^3 (thorough 10^6) deep; slots: 23 templates (for, if, switch, func, call, index/slice, assignment, import/from, go/defer, map, list, operators, jumps in and out of context, string escapes/interpolations, channel operations, attributes, pipes, range and for-in headers, try, comments, number literals, ++/--) x every combination of 2-15 fillers per slot, each alone and after a prelude that defines the names; shared (thorough): map/set/list x every ordered pair of 5-10 operations x go/spawn x {unordered, thread.wait() first, channel hand-off first}, each scenario free-running in its own child built with -race - a report through the Go runtime map routines on an unordered scenario is the access pattern behind the fatal error concurrent map writes, ordered scenarios must be silent. Every input runs parse, String, compile, Eval (15 ms deadline, virtual OS) and the error formatters in a worker child; distinct = worker batches completed")
 }
 
 var frameRe = regexp.MustCompile(`github.com/risor-io/risor/([a-zA-Z0-9_/]+)\.(\(\*?[A-Za-z0-9_]+\)\.)?([A-Za-z0-9_]+)`)
